@@ -45,6 +45,7 @@ const (
 	hBurst // several announcements written back to back before settling
 	hRace   // two peers announce / withdraw the same prefix at the same time
 	hRaceUp // a session completes its handshake while another peer's update is in flight
+	hRaceRefresh // a peer asks for a ROUTE-REFRESH while another peer's update is in flight
 )
 
 type h01Op struct {
@@ -97,10 +98,10 @@ func drawH01(t *rapid.T) h01Case {
 		c.Peers = append(c.Peers, p)
 	}
 	n := rapid.IntRange(3, 40).Draw(t, "nops")
-	kinds := []int{hAnnounce, hAnnounce, hAnnounce, hAnnounce, hAnnounce, hWithdraw, hWithdraw, hFlap, hApiAdd, hApiDel, hDown, hUp, hBurst, hDeletePeer, hRace, hRaceUp}
+	kinds := []int{hAnnounce, hAnnounce, hAnnounce, hAnnounce, hAnnounce, hWithdraw, hWithdraw, hFlap, hApiAdd, hApiDel, hDown, hUp, hBurst, hDeletePeer, hRace, hRaceUp, hRaceRefresh}
 	maxPrefix := 5
 	if c.Focus {
-		kinds = []int{hAnnounce, hAnnounce, hAnnounce, hAnnounce, hWithdraw, hWithdraw, hWithdraw, hRace, hRace, hRaceUp, hFlap, hApiAdd, hApiDel}
+		kinds = []int{hAnnounce, hAnnounce, hAnnounce, hAnnounce, hWithdraw, hWithdraw, hWithdraw, hRace, hRace, hRaceUp, hRaceRefresh, hRaceRefresh, hFlap, hApiAdd, hApiDel}
 		maxPrefix = 1
 		n = rapid.IntRange(8, 40).Draw(t, "nops_f")
 	}
@@ -305,6 +306,24 @@ func (r *h01Run) apply(op h01Op) *verifkit.Failure {
 			announce(op.Prefix, op.PathID, op.Variant)
 		}
 		otherUpdate(qi)
+		r.raced = true
+	case hRaceRefresh:
+		qi := otherPeer()
+		if !p.up || qi < 0 {
+			return nil
+		}
+		r.logf("-- racing: peer %d sends ROUTE-REFRESH --", op.Peer)
+		afi, safi := uint16(bgp.AFI_IP), uint8(bgp.SAFI_UNICAST)
+		if op.V6 {
+			afi = bgp.AFI_IP6
+		}
+		if op.N%2 == 0 {
+			_ = p.sess.send(bgp.NewBGPRouteRefreshMessage(afi, 0, safi), nil)
+			otherUpdate(qi)
+		} else {
+			otherUpdate(qi)
+			_ = p.sess.send(bgp.NewBGPRouteRefreshMessage(afi, 0, safi), nil)
+		}
 		r.raced = true
 	case hRaceUp:
 		qi := otherPeer()
